@@ -142,8 +142,39 @@ fn eval(case: &Case, t: &mut Tally) -> Vec<(String, String)> {
     }
 
     match (&reference, &r1) {
-        (RefRedact::Unspecified, _) => {
+        (RefRedact::Unspecified, r) => {
+            // DESIGN §1.3: `third_party_invite` without `signed` (or not an object) under v11 —
+            // absent or `{}` are both accepted, an error is accepted for non-objects. Everything
+            // else about the result is still determined, and the differential invariants
+            // (idempotence, agreement of the entry points) are checked below regardless.
             t.unspecified += 1;
+            if let Ok(got) = r {
+                let mut base = case.event.clone();
+                let tpi_is_object = base
+                    .get("content")
+                    .and_then(|c| c.get("third_party_invite"))
+                    .map(Value::is_object)
+                    .unwrap_or(false);
+                if let Some(Value::Object(c)) = base.get_mut("content") {
+                    c.remove("third_party_invite");
+                }
+                if let RefRedact::Must(mut exp) = spec::redact_event(v, &base) {
+                    if case.because {
+                        exp.insert("unsigned".into(), json!({"redacted_because": because_obj()}));
+                    }
+                    let mut exp_empty = exp.clone();
+                    if let Some(Value::Object(c)) = exp_empty.get_mut("content") {
+                        c.insert("third_party_invite".into(), json!({}));
+                    }
+                    let got = from_canonical(got);
+                    if got != exp && !(tpi_is_object && got == exp_empty) {
+                        out.push((
+                            format!("table/v{v}/{ty_label}/content.third_party_invite-without-signed"),
+                            format!("v{v}: expected third_party_invite absent or {{}} and everything else per the table; got {}", Value::Object(got)),
+                        ));
+                    }
+                }
+            }
         }
         (RefRedact::MustErr, Ok(o)) => out.push((
             format!("expected-error/{ty_label}"),
@@ -193,28 +224,31 @@ fn eval(case: &Case, t: &mut Tally) -> Vec<(String, String)> {
                     ));
                 }
             }
-            // idempotence: redact(redact(x)) == redact(x) (without redacted_because the
-            // second time, starting from the first result)
-            t.transitions += 1;
-            let first = r1.as_ref().unwrap().clone();
-            match catch(|| redact(first.clone(), &rules, None)) {
-                Ok(Ok(second)) => {
-                    // `unsigned` (redacted_because) is stripped again by a second redaction
-                    let mut first_wo = first.clone();
-                    first_wo.remove("unsigned");
-                    if second != first_wo {
-                        out.push((
-                            format!("not-idempotent/{ty_label}"),
-                            format!("v{v}: once={:?} twice={:?}", first_wo, second),
-                        ));
-                    }
+        }
+    }
+
+    // idempotence: redact(redact(x)) == redact(x) — a differential invariant, checked whatever the
+    // reference says about the first result
+    if let Ok(first) = &r1 {
+        let first = first.clone();
+        t.transitions += 1;
+        match catch(|| redact(first.clone(), &rules, None)) {
+            Ok(Ok(second)) => {
+                // `unsigned` (redacted_because) is stripped again by a second redaction
+                let mut first_wo = first.clone();
+                first_wo.remove("unsigned");
+                if second != first_wo {
+                    out.push((
+                        format!("not-idempotent/{ty_label}"),
+                        format!("v{v}: once={:?} twice={:?}", first_wo, second),
+                    ));
                 }
-                Ok(Err(e)) => out.push((
-                    format!("not-idempotent-err/{ty_label}"),
-                    format!("v{v}: second redaction failed: {e}"),
-                )),
-                Err(p) => out.push((format!("panic/{}", p.file()), p.text)),
             }
+            Ok(Err(e)) => out.push((
+                format!("not-idempotent-err/{ty_label}"),
+                format!("v{v}: second redaction failed: {e}"),
+            )),
+            Err(p) => out.push((format!("panic/{}", p.file()), p.text)),
         }
     }
 
@@ -226,7 +260,21 @@ fn eval(case: &Case, t: &mut Tally) -> Vec<(String, String)> {
         match r3 {
             Err(p) => out.push((format!("panic/{}", p.file()), p.text)),
             Ok(r3) => match (spec::redact_content(v, ty, content), r3) {
-                (RefRedact::Unspecified, _) => {}
+                (RefRedact::Unspecified, r3) => {
+                    if let (Ok(()), Ok(full)) = (&r3, &r1) {
+                        if let Some(CanonicalJsonValue::Object(fc)) = full.get("content") {
+                            if *fc != c {
+                                out.push((
+                                    format!("content-only-disagrees/{ty}"),
+                                    format!("v{v}: full={:?} content-only={:?}", fc, c),
+                                ));
+                            }
+                        }
+                    }
+                    if r3.is_ok() != r1.is_ok() {
+                        out.push((format!("content-only-disagrees-result/{ty}"), format!("v{v}: full ok={} content-only ok={}", r1.is_ok(), r3.is_ok())));
+                    }
+                }
                 (RefRedact::Must(exp), Ok(())) => {
                     let got = from_canonical(&c);
                     if got != exp {
